@@ -317,7 +317,7 @@ def arch_block(ctx, families=None, mean_units=None):
                 d1 = ctx.lt()
                 if per_block_ids:
                     ctx.base_id = ids[b + 1]
-                d2 = ctx.gt(weight=0.0)
+                d2 = ctx.gt(weight=r.choice([0.0, 0.0, 0.0, None, 2.0, 0.5]))  # the hand-over side; its weight is irrelevant when it is the only candidate left
                 els.append(ctx.unit([D(d1.sym, d1.id), d2], style="ends"))
     els.append(ctx.plain())
     return MolAst(els, arch="block")
